@@ -69,11 +69,11 @@ Definition dz_set_hlen (l : dz_layer) (h : Z) := mk_dz_layer (dz_pass l) (dz_res
 Definition dz_set_fed (l : dz_layer) (b : bool) := mk_dz_layer (dz_pass l) (dz_restart l) (dz_zinit l) (dz_obuf l) (dz_hlen l) b.
 
 Section WithOracle.
-Variable O : Type.
-Variable ask : O -> dz_query -> dz_ans * O.
+Variable OT : Type.
+Variable ask : OT -> dz_query -> dz_ans * OT.
 
 Record dz_world := mk_dz_world {
-  w_o : O;                    (* the external world *)
+  w_o : OT;                    (* the external world *)
   w_entity : Z;               (* tx->response_entity_len *)
   w_message : Z;              (* tx->response_message_len *)
   w_events : list dz_data;    (* what the user's hook was given, latest first *)
@@ -498,10 +498,11 @@ Definition dz_response_headers (ce : option bytes) (w : dz_world) : dz_tx :=
 Definition dz_is_coded (cep : Z) : bool :=
   (cep =? c_dz_COMPRESSION_GZIP) || (cep =? c_dz_COMPRESSION_DEFLATE) || (cep =? c_dz_COMPRESSION_LZMA).
 
-Definition dz_process_body_data (t : dz_tx) (data : option bytes) : dz_tx * Z :=
+(* extra: what other code (the chunked-framing parser) has added to response_message_len since the previous call *)
+Definition dz_process_body_data (t : dz_tx) (extra : Z) (data : option bytes) : dz_tx * Z :=
   let d := match data with None => dz_null | Some b => dz_some b end in
   let w := tx_w t in
-  let w := w_set_message w (w_message w + dz_len d) in
+  let w := w_set_message w (w_message w + extra + dz_len d) in
   if dz_is_coded (tx_cep t) then
     match tx_chain t with
     | [] => (mk_dz_tx [] (tx_cep t) w (tx_err t), c_HTP_ERROR)
@@ -531,18 +532,87 @@ Definition dz_process_body_data (t : dz_tx) (data : option bytes) : dz_tx * Z :=
     (mk_dz_tx (tx_chain t) (tx_cep t) w (tx_err t), if negb (rc =? c_HTP_OK) then c_HTP_ERROR else c_HTP_OK)
   else (mk_dz_tx (tx_chain t) (tx_cep t) w (tx_err t), c_HTP_ERROR).
 
-Fixpoint dz_calls (t : dz_tx) (calls : list (option bytes)) : dz_tx :=
+Fixpoint dz_calls (t : dz_tx) (calls : list (Z * option bytes)) : dz_tx :=
   match calls with
   | [] => t
-  | d :: r => dz_calls (fst (dz_process_body_data t d)) r
+  | (extra, d) :: r => dz_calls (fst (dz_process_body_data t extra d)) r
   end.
 
-Definition dz_world0 (o : O) : dz_world := mk_dz_world o 0 0 [] 0 0 0 (0, 0) 0 false false false.
+Definition dz_world0 (o : OT) : dz_world := mk_dz_world o 0 0 [] 0 0 0 (0, 0) 0 false false false.
 
 (* one message: headers (chain construction), the body calls, connection teardown (destroys what is left of the chain) *)
-Definition dz_run (ce : option bytes) (calls : list (option bytes)) (o : O) : dz_tx * nat :=
+Definition dz_run (ce : option bytes) (calls : list (Z * option bytes)) (o : OT) : dz_tx * nat :=
   let t0 := dz_response_headers ce (dz_world0 o) in
   let t := dz_calls t0 calls in
   (mk_dz_tx [] (tx_cep t) (dz_destroy (tx_chain t) (tx_w t)) (tx_err t), length (tx_chain t0)).
 
 End WithOracle.
+
+(* ------------------------------------------------------------------ the recorded-answer instance *)
+
+(* one recorded external call of the real library, in call order (harness/drv/drv_decomp.h) *)
+Inductive dz_rec :=
+| RInit (wbits rc : Z)
+| RInflate (ain aout : Z) (peek : bytes) (consumed : nat) (rc : Z) (out : bytes)
+| REnd
+| RAlloc (rc : Z)
+| RDecode (ain aout : Z) (peek : bytes) (consumed : nat) (rc status : Z) (out : bytes)
+| RFree.
+
+Record dz_lo := mk_dz_lo {
+  lo_rest : list dz_rec;        (* answers not yet consumed *)
+  lo_asked : nat;               (* questions asked so far *)
+  lo_desync : option nat        (* index of the first question that did not match the recorded call *)
+}.
+Definition dz_PEEK : nat := 4.
+
+Definition dz_bytes_eqb (a b : bytes) : bool := cmp_mem a b =? 0.
+Definition lo_flag (o : dz_lo) (ok : bool) (rest : list dz_rec) : dz_lo :=
+  mk_dz_lo rest (S (lo_asked o))
+           (match lo_desync o with Some i => Some i | None => if ok then None else Some (lo_asked o) end).
+Definition dz_default_ans : dz_ans := mk_dz_ans 0 [] c_dz_Z_STREAM_ERROR 0.
+
+Definition dz_ask_list (o : dz_lo) (q : dz_query) : dz_ans * dz_lo :=
+  match lo_rest o with
+  | [] => (dz_default_ans, lo_flag o false [])
+  | r :: rest =>
+    match q, r with
+    | QInit wb, RInit wb' rc => (mk_dz_ans 0 [] rc 0, lo_flag o (wb =? wb') rest)
+    | QInflate inp ao, RInflate ain aout peek consumed rc out =>
+      (mk_dz_ans consumed out rc 0,
+       lo_flag o ((ain =? Z.of_nat (length inp)) && (aout =? Z.of_nat ao) && dz_bytes_eqb peek (firstn dz_PEEK inp)
+                  && (consumed <=? length inp)%nat && (length out <=? ao)%nat) rest)
+    | QEnd, REnd => (mk_dz_ans 0 [] 0 0, lo_flag o true rest)
+    | QLzAlloc, RAlloc rc => (mk_dz_ans 0 [] rc 0, lo_flag o true rest)
+    | QLzDecode inp ao, RDecode ain aout peek consumed rc st out =>
+      (mk_dz_ans consumed out rc st,
+       lo_flag o ((ain =? Z.of_nat (length inp)) && (aout =? Z.of_nat ao) && dz_bytes_eqb peek (firstn dz_PEEK inp)
+                  && (consumed <=? length inp)%nat && (length out <=? ao)%nat) rest)
+    | QLzFree, RFree => (mk_dz_ans 0 [] 0 0, lo_flag o true rest)
+    | _, _ => (dz_default_ans, lo_flag o false (r :: rest))     (* another call was recorded here: keep it *)
+    end
+  end.
+
+(* what a run shows: compared field by field with the library's result line *)
+Record dz_obs := mk_dz_obs {
+  ob_events : list dz_data;      (* body-data hook invocations, in order *)
+  ob_entity : Z;
+  ob_message : Z;
+  ob_layers : nat;               (* decompressors in the chain after the headers *)
+  ob_cep : Z;
+  ob_trace : bool;
+  ob_late : bool;
+  ob_left : nat;                 (* recorded answers the model did not ask for *)
+  ob_desync : option nat;
+  ob_nclock : nat;
+  ob_err : bool
+}.
+
+Definition dz_observe (c : dz_cfg) (ce : option bytes) (calls : list (Z * option bytes)) (recs : list dz_rec) : dz_obs :=
+  let '(t, layers) := dz_run dz_lo dz_ask_list c ce calls (mk_dz_lo recs 0 None) in
+  let w := tx_w dz_lo t in
+  mk_dz_obs (rev (w_events dz_lo w)) (w_entity dz_lo w) (w_message dz_lo w) layers (tx_cep dz_lo t) (w_trace dz_lo w) (w_late dz_lo w)
+            (length (lo_rest (w_o dz_lo w))) (lo_desync (w_o dz_lo w)) (w_nclock dz_lo w) (tx_err dz_lo t).
+
+(* all delivered bytes, in order *)
+Definition dz_delivered (ob : dz_obs) : bytes := concat (map dd_bytes (ob_events ob)).
